@@ -26,7 +26,7 @@ def write_tokens(F, node, depth=0):
                     toks.append(("text", tir.place(v.get("expr") or {}), v.get("trait"), fmtspec.is_default_spec(v)))
         elif d.startswith("byteorder::WriteBytesExt::write_"):
             ty = c["method"][6:]
-            toks.append((ty + ("be" if L.endian_of(c) == "BigEndian" else ("" if L.WIDTH.get(ty, 1) == 1 else "?")), tir.pretty(c["args"][0])[:60]))
+            toks.append((ty + ("be" if L.endian_of(c) == "BigEndian" else ("" if L.WIDTH.get(ty, 1) == 1 else "?")), tir.pretty(c["args"][0])[:60], c["args"][0]))
         elif d.startswith(SER):
             toks.append(("call", d[len(SER):], [tir.place(a) for a in c["args"][1:]]))
         elif d.endswith("Write::write_all"):
@@ -102,8 +102,10 @@ def _simplify(P):
             if x[0] == "payload":
                 return val(x[1], d + 1)
             return "?"
-        kind = "err" if v[0] == "err" else "ok"
-        out.append((tuple(toks), kind, val(v) if kind == "ok" else ("err",), bool(st.guards)))
+        kind = "err" if v[0] == "err" else ("flow" if v[0] in ("continue", "break") else "ok")
+        if v[0] == "callres":
+            v = ("ok", v)       # a callee's Result returned as is: its Ok payload is the value
+        out.append((tuple(toks), kind, (val(v) if kind == "ok" else (v[0],)), bool(st.guards)))
     return out
 
 
@@ -114,7 +116,8 @@ def reader_grammar(F, rep):
     for fn in ("to_utf8", "to_key", "to_val"):
         b = F.body(DE + fn)
         if b is None:
-            rep.ob("grammar.reader." + fn, False, DE + fn, "missing", "%s not found" % (DE + fn))
+            if fn != "to_key":      # the key reader may be written inline in the map loop
+                rep.ob("grammar.reader." + fn, False, DE + fn, "missing", "%s not found" % (DE + fn))
             continue
         try:
             got[fn] = _simplify(readpaths.Paths(F, b, local_prefix=DE))
@@ -140,18 +143,47 @@ def reader_grammar(F, rep):
             ok = False
         rep.ob("grammar.reader.utf8", ok and not touched, DE + "to_utf8", "shape", "to_utf8 must be: u8 length, exactly that many bytes, String::from_utf8 of those bytes; paths: %s%s" % (
             sorted(oks)[:3], "; the buffer is modified between the read and the conversion" if touched else ""), sample={"paths": [str(x) for x in sorted(oks)]})
-    if "to_key" in got:
-        want = {((("u8", ("=", 0x55)), ("call", "to_utf8")), "ok", ("ok", ("some", ("result-of", "to_utf8"))), False),
+    # one key/value pair of a map: 'U'<utf8> then a value, or '}' to end the map, nothing else — whether the key is read by a
+    # helper (to_key) or in the loop of read_map_ itself
+    key_want = {((("u8", ("=", 0x55)), ("call", "to_utf8")), "ok", ("ok", ("some", ("result-of", "to_utf8"))), False),
                 ((("u8", ("=", 0x7d)),), "ok", ("ok", ("none",)), False),
                 ((("u8", ("!=", (0x55, 0x7d))),), "err", ("err",), False)}
+    has_key_fn = F.body(DE + "to_key") is not None
+    if "to_key" in got:
         have = set(got["to_key"])
         markers = sorted(hex(t[1][1]) for p in have for t in p[0][:1] if t[0] == "u8" and t[1] and t[1][0] == "=" and p[1] == "ok")
-        rep.ob("grammar.reader.key", have == want, DE + "to_key", "markers", "to_key must accept exactly 'U'<utf8> (key) and '}' (end of map) and reject every other byte; accepted first bytes %s, paths differing: %s" % (
-            markers, sorted(str(x) for x in have ^ want)[:3]), sample={"key_markers": markers})
+        rep.ob("grammar.reader.key", have == key_want, DE + "to_key", "markers", "to_key must accept exactly 'U'<utf8> (key) and '}' (end of map) and reject every other byte; accepted first bytes %s, paths differing: %s" % (
+            markers, sorted(str(x) for x in have ^ key_want)[:3]), sample={"key_markers": markers})
+    mb = F.body(DE + "read_map_") or F.body(DE + "read_map")
+    if mb is not None:
+        try:
+            it = _simplify(readpaths.Paths(F, mb, local_prefix=DE, loop_iteration=True))
+            shapes = set()
+            for toks, kind, v, guarded in it:
+                # expand a to_key call into the key grammar established above
+                if toks[:1] == (("call", "to_key"),):
+                    if len(toks) > 1:
+                        shapes.add(((("u8", ("=", 0x55)), ("call", "to_utf8")) + toks[1:], kind, v[0] if kind != "ok" else "ok"))
+                    else:
+                        shapes.add(((("u8", ("=", 0x7d)),), kind, v[0] if kind != "ok" else "ok"))
+                else:
+                    shapes.add((toks, kind, v[0] if kind != "ok" else "ok"))
+            want_iter = {((("u8", ("=", 0x55)), ("call", "to_utf8"), ("call", "to_val")), "flow", "continue")}
+            ends = {s_ for s_ in shapes if s_[0] == (("u8", ("=", 0x7d)),)}
+            others = shapes - want_iter - ends
+            ok = want_iter <= shapes and len(ends) == 1 and all(e[1] in ("flow", "ok") and e[2] in ("break", "ok") for e in ends)
+            if not has_key_fn:
+                ok = ok and others == {((("u8", ("!=", (0x55, 0x7d))),), "err", "err")}
+            else:
+                ok = ok and not others
+            rep.ob("grammar.reader.pair", ok, mb["path"], "iteration", "each iteration of the map loop must read 'U'<utf8> then one value, or '}' to finish, and reject every other byte; iteration paths: %s" % sorted(str(x) for x in shapes)[:5],
+                   sample={"iteration": [str(x) for x in sorted(shapes, key=str)]})
+        except L.Unsupported as e:
+            rep.cannot("grammar.reader.pair", mb["path"], e)
     if "to_val" in got:
         have = set(got["to_val"])
         oks = set(p for p in have if p[1] == "ok")
-        markers = sorted(set(hex(p[0][0][1][1]) for p in oks if p[0] and p[0][0][0] == "u8" and p[0][0][1] and p[0][0][1][0] == "="))
+        markers = sorted(set(hex(p[0][0][1][1]) for p in oks if p[0] and len(p[0][0]) > 1 and p[0][0][0] == "u8" and isinstance(p[0][0][1], tuple) and p[0][0][1][0] == "="))
         rep.ob("grammar.reader.value-markers", markers == ["0x53", "0x6c", "0x7b"] and ((("u8", ("!=", (0x53, 0x6c, 0x7b))),), "err", ("err",), False) in have, DE + "to_val", "markers",
                "to_val must accept exactly 'S', 'l', '{' and reject every other byte; found %s" % markers, sample={"value_markers": markers})
         s_ok = {p for p in oks if p[0][:1] == (("u8", ("=", 0x53)),)}
@@ -184,10 +216,16 @@ def writer_grammar(F, rep):
     b = F.body(SER + "write_utf8")
     toks = write_tokens(F, b["tir"]["value"]) if b else []
     sname = b["tir"]["params"][1].get("name") if b else None
-    lenx = toks[1][1].strip("()") if len(toks) > 1 and len(toks[1]) > 1 and isinstance(toks[1][1], str) else ""
-    if lenx.endswith(" as u8"):
-        lenx = lenx[:-6]     # lossless on the property's domain (strings of at most 255 bytes)
-    ok = (len(toks) == 3 and toks[0] == ("byte", 0x55) and toks[1][0] == "u8" and lenx.startswith("%s.len()" % sname)
+    import linear
+    len_ok = False
+    if len(toks) > 1 and len(toks[1]) > 2:
+        try:
+            # the length byte is s.len() through value-preserving conversions (lossless on the property's domain: <= 255 bytes)
+            f = linear.lin(tir.LetEnv(b["tir"]["value"]).resolve(toks[1][2]))
+            len_ok = {k: v for k, v in f.items() if v} == {"%s.len()" % sname: 1}
+        except linear.NonLinear:
+            len_ok = False
+    ok = (len(toks) == 3 and toks[0] == ("byte", 0x55) and toks[1][0] == "u8" and len_ok
           and toks[2] == ("text", sname, "display", True))
     rep.ob("grammar.writer.utf8", ok, SER + "write_utf8", "tokens", "write_utf8 must emit 'U', u8 length of s, the bytes of s; got %s" % (toks,), sample={"tokens": [str(t) for t in toks]})
     b = F.body(SER + "write_map")
@@ -270,13 +308,16 @@ def toplevel_rule(F, rep):
     # writer
     wb = F.body("io::slippi::ser::write")
     seq = []
-    for g, c in flow.ordered_calls(wb["tir"]["value"], lambda n: (callee(n) or "").endswith("Write::write_all") or (callee(n) or "") == SER + "write_map"):
+    for g, c in flow.ordered_calls(wb["tir"]["value"], lambda n: (callee(n) or "").endswith("Write::write_all") or (callee(n) or "") == SER + "write_map"
+                                   or ((declared(n) or "") == "byteorder::WriteBytesExt::write_u8" and tir.lit_int(n["args"][0]) is not None and strip(n["args"][0]).get("k") == "Lit")):
         if (callee(c) or "") == SER + "write_map":
             seq.append(("write_map", tuple(x[1] for x in g)))
+        elif (declared(c) or "") == "byteorder::WriteBytesExt::write_u8":
+            seq.append(((tir.lit_int(c["args"][0]),), tuple(x[1] for x in g)))      # write_u8(b) is write_all(&[b])
         else:
-            a = strip(c["args"][0])
-            if a.get("k") == "Array":
-                seq.append((tuple(tir.lit_int(e) for e in a["elems"]), tuple(x[1] for x in g)))
+            bs = F.bytes_of(c["args"][0])
+            if bs is not None:
+                seq.append((tuple(bs), tuple(x[1] for x in g)))
     tail = seq[-4:]
     guard = "std::prelude::v1::Some(metadata) = game.metadata"
     ok = (len(tail) == 4 and tail[0] == (tuple(key), (guard,)) and tail[1] == ("write_map", (guard,)) and tail[2] == ((0x7d,), (guard,)) and tail[3] == ((0x7d,), ()))
